@@ -480,9 +480,14 @@ type loopOp struct {
 	// ChangeNth: before this request the search scope changes (change-nth): the coordinator clears the
 	// pattern cache and the chunk cache and bumps the minor revision
 	ChangeNth bool `json:"change_nth,omitempty"`
+	// Reload: before this request the input is replaced (reload): the loaders of the old input are stopped
+	// and waited for, the list is cleared, ordinals restart at 0, the major revision is bumped, and new
+	// loaders push the second input (the first one again plus Extra2 more lines)
+	Reload bool `json:"reload,omitempty"`
 }
 
 type loopPlan struct {
+	Extra2     int      `json:"extra2,omitempty"` // the input after a reload: the same lines plus this many more
 	Lines      lineSpec `json:"lines"`
 	Loaders    int      `json:"loaders"`
 	Bursts     []int    `json:"bursts"`
@@ -537,9 +542,31 @@ func genLoopPlan(r *zsim.Rng) *loopPlan {
 			}
 		}
 	}
+	if !cacheStress && r.Chance(1, 8) {
+		// Aimed at the first searches after a reload: the old input is completely loaded and searched, the
+		// new one arrives in two pieces with a pause, the first piece as long as the old input was; the
+		// same query is asked again right after the reload and again during the pause
+		n := r.Range(1, 700)
+		p.Lines.N = n
+		p.Extra2 = r.Range(1, 300)
+		p.Loaders = 1
+		p.Tail = 0
+		p.Bursts = []int{n, 100000}
+		p.GapsMs = []int{[]int{150, 300, 600}[r.Intn(3)], 0}
+		q := pool[r.Intn(len(pool))]
+		p.Ops = append(p.Ops, loopOp{Query: q}, loopOp{Query: q, GapMs: 1000}, loopOp{Query: q, Reload: true, GapMs: r.Intn(3)},
+			loopOp{Query: q, GapMs: []int{20, 60, 100}[r.Intn(3)]}, loopOp{Query: q, GapMs: 1500})
+		return p
+	}
 	nops := r.Range(2, 25)
 	for i := 0; i < nops; i++ {
 		op := loopOp{Query: pool[r.Intn(len(pool))], Cancel: r.Chance(1, 2), Toggle: r.Chance(1, 10)}
+		if !cacheStress && r.Chance(1, 25) {
+			op.Reload = true
+			if p.Extra2 == 0 {
+				p.Extra2 = r.Intn(200)
+			}
+		}
 		op.GapMs = []int{0, 0, 0, 1, 3, 10, 40, 120, 500}[r.Intn(9)]
 		op.ChangeNth = r.Chance(1, 15)
 		if cacheStress {
@@ -650,38 +677,47 @@ func runLoop(c *runCtx) {
 	}
 	defer func() { zsim.EventHook = nil }()
 
-	loadersLeft := L
-	for j := 0; j < L; j++ {
-		j := j
-		sim.Go(fmt.Sprintf("ext/loader%d", j), func() {
-			k := 0
-			sent := 0
-			for i := j; i < len(lines); i += L {
-				cl.Push([]byte(lines[i]))
-				sent++
-				b := 100
-				if len(plan.Bursts) > 0 {
-					b = plan.Bursts[(k+j)%len(plan.Bursts)]
-				}
-				if b < 1 {
-					b = 1
-				}
-				if sent >= b {
-					sent = 0
-					g := 0
-					if len(plan.GapsMs) > 0 {
-						g = plan.GapsMs[(k+j)%len(plan.GapsMs)]
+	loadersLeft := 0
+	loadGen := 0
+	var startLoaders func(lines []string)
+	startLoaders = func(lines []string) {
+		loadGen++
+		gen := loadGen
+		loadersLeft = L
+		for j := 0; j < L; j++ {
+			j := j
+			sim.Go(fmt.Sprintf("ext/loader%d.%d", gen, j), func() {
+				k := 0
+				sent := 0
+				for i := j; i < len(lines) && gen == loadGen; i += L {
+					cl.Push([]byte(lines[i]))
+					sent++
+					b := 100
+					if len(plan.Bursts) > 0 {
+						b = plan.Bursts[(k+j)%len(plan.Bursts)]
 					}
-					k++
-					if g > 0 {
-						time.Sleep(time.Duration(clampInt(g, 0, 5000)) * time.Millisecond)
+					if b < 1 {
+						b = 1
+					}
+					if sent >= b {
+						sent = 0
+						g := 0
+						if len(plan.GapsMs) > 0 {
+							g = plan.GapsMs[(k+j)%len(plan.GapsMs)]
+						}
+						k++
+						if g > 0 {
+							time.Sleep(time.Duration(clampInt(g, 0, 5000)) * time.Millisecond)
+						}
 					}
 				}
-			}
-			zsim.Yield("loader-done")
-			loadersLeft--
-		})
+				zsim.Yield("loader-done")
+				loadersLeft--
+			})
+		}
 	}
+	startLoaders(lines)
+	curLines := lines
 	snapshotBad := ""
 	sortNow := plan.Match.Sort
 	submit := func(q string, cancel bool) {
@@ -765,6 +801,25 @@ func runLoop(c *runCtx) {
 				rev.bumpMinor()
 				c.count("probe.change_nth", 1)
 			}
+			if op.Reload {
+				// like restart() in core.go once the old reader has finished: the list is cleared, ordinals
+				// restart, the major revision is bumped, a new reader starts
+				loadGen++ // the old loaders stop at their next record
+				for loadersLeft > 0 {
+					time.Sleep(5 * time.Millisecond)
+					zsim.Yield("coord-wait-old-reader")
+				}
+				cl.Clear()
+				cl.mutex.Lock()
+				idx = 0
+				pushLog = nil
+				cl.mutex.Unlock()
+				rev.bumpMajor()
+				next := append(append([]string{}, lines...), genLines(lineSpec{N: clampInt(plan.Extra2, 0, 5000), Seed: plan.Lines.Seed + 1, Shape: plan.Lines.Shape})...)
+				curLines = next
+				startLoaders(next)
+				c.count("probe.reload", 1)
+			}
 			lastQ = op.Query
 			submit(op.Query, op.Cancel)
 		}
@@ -803,17 +858,17 @@ func runLoop(c *runCtx) {
 		c.violate("loop.snapshot", "%s (tail=%d loaders=%d)", snapshotBad, tail, L)
 	}
 	// every record pushed is in the final snapshot window
-	if len(pushLog) != len(lines) {
-		c.violate("loop.lost_push", "%d records pushed, %d ordinals assigned", len(lines), len(pushLog))
+	if len(pushLog) != len(curLines) {
+		c.violate("loop.lost_push", "%d records pushed, %d ordinals assigned", len(curLines), len(pushLog))
 	}
 	if n := len(reqs); n > 0 {
 		fr := reqs[n-1].frozen
-		wantLen := len(lines)
+		wantLen := len(curLines)
 		if tail > 0 && wantLen > tail {
 			wantLen = tail
 		}
-		if len(fr) != wantLen || (len(fr) > 0 && int(fr[len(fr)-1].Index) != len(lines)-1) {
-			c.violate("loop.final_snapshot", "final snapshot holds %d items (last ordinal %v) but %d records were pushed (tail %d)", len(fr), lastIdx(fr), len(lines), tail)
+		if len(fr) != wantLen || (len(fr) > 0 && int(fr[len(fr)-1].Index) != len(curLines)-1) {
+			c.violate("loop.final_snapshot", "final snapshot holds %d items (last ordinal %v) but %d records were pushed (tail %d)", len(fr), lastIdx(fr), len(curLines), tail)
 		}
 	}
 	// frozen copies still equal the live snapshot chunks: items never change after they have been read
